@@ -35,6 +35,13 @@ class StubSocket:
     def __eq__(self, o):
         return self is o
 
+    def shutdown(self, how):
+        # environment contract Socket.shutdown: raises OSError(ENOTCONN) when the peer has reset the connection (the scripted-failure sockets)
+        if self.closed:
+            raise OSError(9, "Bad file descriptor")
+        if self.fail:
+            raise OSError(107, "Transport endpoint is not connected")
+
     def sendall(self, data):
         from pyrtma.header import MessageHeader
         if self.closed:
